@@ -24,6 +24,7 @@ Tie: suite `e2e` drives the REAL `RealDriver` (mio/epoll, `DevInputReader`, `Tab
 -/
 import TmVerif.Proofs.EndToEnd
 import TmVerif.Proofs.EndToEndAny
+import TmVerif.Proofs.EndToEndTimed
 import TmVerif.Props.C10Closed
 import TmVerif.Props.C18
 
@@ -192,3 +193,58 @@ end TmVerif
 
 #print axioms TmVerif.E2E_any
 #print axioms TmVerif.E2E_closed_accepted
+
+/-! ### With the repeat timer (appended: what the timed runs of suite e2e compare with) -/
+
+namespace TmVerif
+
+/-- E2E with the timer, for the OPEN loop model: every layout, every script of driver answers without an
+error answer (any batching, any clock readings, time-outs at any moment, interruptions, tablet-switch
+events), as long as the machine is not `bad` (an ill-typed answer): the bytes of ALL sends the loop has
+made — step outputs, release-all outputs AND repeat chords — in order, followed by the bytes of a send
+that is still pending, are exactly `wireOfTLog` of the timed read log `tlogOf` (the events read, with a
+tick wherever `poll` timed out with a repeat armed outside tablet mode).  In particular `wireOfTLog` is
+never `none` on a log the loop produces: a chord is only ever written with a repeat armed, with the
+keys armed by the last step result (`armAfter`), filtered by what is held (`chordOf`). -/
+theorem E2E_timed (L : Layout) (x0 : Machine) (h0 : Machine.init L = some x0) (rs : List Resp)
+    (hne : noErr rs = true) (hok : (runScript L x0 rs).2.c ≠ Ctl.bad) :
+    wireOfTLog L State.init none false (tlogOf L x0 rs) =
+      some ((allSends (runScript L x0 rs).1).flatMap encodeBatch ++ owedBytes (runScript L x0 rs).2) :=
+  wireOfTLog_runScript L x0 h0 rs hne hok
+
+/-- … and when the loop is back at `poll` nothing is owed -/
+theorem E2E_timed_polling (L : Layout) (x0 : Machine) (h0 : Machine.init L = some x0) (rs : List Resp)
+    (hne : noErr rs = true) (t : Option Nat) (hpoll : (runScript L x0 rs).2.c = Ctl.polling t) :
+    wireOfTLog L State.init none false (tlogOf L x0 rs) =
+      some ((allSends (runScript L x0 rs).1).flatMap encodeBatch) :=
+  wireOfTLog_runScript_polling L x0 h0 rs hne t hpoll
+
+/-- without ticks `wireOfTLog` is `wireOfLog` -/
+theorem wireOfTLog_noTicks (L : Layout) (s : State) (rep : Option (List Key)) (b : Bool) (lg : List Item) :
+    wireOfTLog L s rep b (lg.map TItem.item) = some (wireOfLog L s b lg) := by
+  induction lg generalizing s rep b with
+  | nil => rfl
+  | cons i is ih =>
+    cases i with
+    | kbd ev =>
+      cases b with
+      | true => simpa [wireOfTLog, wireOfLog] using ih s rep true
+      | false => simp [wireOfTLog, wireOfLog, ih]
+    | tab tev => simp [wireOfTLog, wireOfLog, ih]
+
+/-- a tick with nothing armed is impossible; a Special-repeat key held: the chord is written at each tick -/
+example :
+    wireOfTLog [] State.init none false [TItem.tick] = none ∧
+    wireOfTLog [⟨[30], [48], Repeat.special [29, 190] 25 12, []⟩] State.init none false
+      [TItem.item (Item.kbd (Event.pressed 30)), TItem.tick, TItem.tick, TItem.item (Item.kbd (Event.released 30)), TItem.tick] = none ∧
+    wireOfTLog [⟨[30], [48], Repeat.special [29, 190] 25 12, []⟩] State.init none false
+      [TItem.item (Item.kbd (Event.pressed 30)), TItem.tick, TItem.item (Item.kbd (Event.released 30))] =
+      some (encodeBatch [Event.pressed 48, Event.released 48] ++
+            encodeBatch [Event.pressed 29, Event.pressed 190, Event.released 190, Event.released 29]) := by
+  decide +kernel
+
+end TmVerif
+
+#print axioms TmVerif.E2E_timed
+#print axioms TmVerif.E2E_timed_polling
+#print axioms TmVerif.wireOfTLog_noTicks
